@@ -10,7 +10,9 @@ LEVEL = 'model_checking'
 RULE = (
     'same S-/A-/gated families as C01 plus single-process worlds whose '
     'timestep does not divide the run (ts in {0.75, 1.25, 3} against '
-    'update(2), update(3.25), update(10), run_for chunks); oracle: timestep '
+    'update(2), update(3.25), update(10), run_for chunks), and a process '
+    'with a scripted timestep sequence run serially and in a real worker; '
+    'oracle: timestep '
     'argument == length of the interval ending at the application time, '
     'contiguity, sum == elapsed, Clock-like variable == elapsed, nothing '
     'pending after update(). Distinct by (world, choice sequence).')
@@ -51,7 +53,74 @@ def extra_jobs(ctx):
     return jobs
 
 
+def para_jobs(ctx):
+    """One process with a scripted (poll-number dependent) timestep
+    sequence, run serially and in a real worker, next to a serial ts-1
+    process."""
+    seqs = [s for s in itertools.permutations([1, 2, 0.5, 1.25], 3)]
+    if not ctx.quick:
+        seqs = [s for s in itertools.permutations(
+            [1, 2, 0.5, 1.25, 0.75, 3], 4)]
+    return [('ParA', seq, par, other)
+            for seq in seqs for par in (False, True)
+            for other in (False, True)]
+
+
+def run_para(job, acc):
+    _, seq, par, other = job
+    from vmc import worlds, framework as fw2
+    spec = sched.s_world([(1, 'always')] + ([(1, 'always')] if other
+                                            else []),
+                         [('update', 6), ('end',)])
+    spec['processes']['p0']['ts'] = {
+        '$n': {i: t for i, t in enumerate(seq)}, '$else': 1}
+    if par:
+        spec['processes']['p0']['_parallel'] = True
+    spec['family'] = 'ParA'
+    spec['job'] = job
+    ex = worlds.execute(spec, guard_factory=sched.lasso_guard,
+                        watchdog=60.0)
+    acc.case(key=job, outcome=f'ParA:par={par}')
+    V = lambda rule, fp, msg: acc.violate(  # noqa
+        fw2.violation(rule, fp, msg, spec))
+    try:
+        if ex.error:
+            V('C02.crash', 'para:' + sched.crash_fp(ex),
+              f'unexpected {ex.error[2]!r}')
+            return
+        # requested intervals: cumulative sums of the scripted sequence
+        ends, t, k = [], 0, 0
+        while t < 6:
+            ts = seq[k] if k < len(seq) else 1
+            t = min(t + ts, 6)
+            ends.append((t, min(ts, t - (ends[-1][0] if ends else 0))))
+            k += 1
+        for (T, data, snap) in worlds.history_rows(ex):
+            done = [(e, ts) for e, ts in ends if e <= T]
+            node = data.get('s0', {})
+            if len(node.get('tok', ())) != len(done) or \
+                    node.get('clk') != sum(ts for _, ts in done):
+                V('C02.timestep', 'handed-timestep-is-not-the-requested-one',
+                  f'scripted timesteps {seq} (parallel={par}): at t={T} '
+                  f'the process has {len(node.get("tok", ()))} updates and '
+                  f'clock variable {node.get("clk")}; requested intervals '
+                  f'end at {ends}')
+                return
+    finally:
+        if ex.engine is not None:
+            try:
+                ex.engine.end()
+            except Exception:  # noqa
+                pass
+
+
 def run_job(job, acc):
+    if job[0] == 'ParA':
+        run_para(job, acc)
+        return
+    if job[0] == 'BFS':
+        afamily.run_bfs_job(job, acc, MONITORS)
+        return
     if job[0] == 'S':
         C01.run_s(job, acc, MONITORS)
     else:
@@ -59,15 +128,23 @@ def run_job(job, acc):
 
 
 def run(ctx):
-    acc = ctx.map(run_job, afamily.a_jobs(ctx), chunk=1)
+    fw.preload_forkserver()
+    acc = ctx.map(run_job, para_jobs(ctx), chunk=4)
+    ctx.map(run_job, afamily.a_jobs(ctx), acc=acc, chunk=1)
+    ctx.map(run_job, C01.bfs_jobs(ctx), acc=acc, chunk=1)
     return ctx.map(run_job, C01.s_jobs(ctx) + extra_jobs(ctx), acc=acc)
 
 
 def replay(case):
     acc = fw.Acc()
-    if case.get('family') == 'S':
+    if case.get('family') == 'ParA':
+        fw.preload_forkserver()
+        run_para(case['job'], acc)
+    elif case.get('family') == 'S':
         C01.run_s(('S', case['procs'], case['script'],
-                   case.get('nested', False)), acc, MONITORS)
+                   case.get('nested', False),
+                   case.get('engine', {}).get('initial_global_time', 0)),
+                  acc, MONITORS)
     else:
         afamily.replay(case, acc, MONITORS)
     return [v for exs in acc.viol_examples.values() for v in exs]
